@@ -259,6 +259,27 @@ Example C12_zero_slope_fraction_refuted :
               (stored_curve FNum KFullSmooth [50; 4; 0.5; 70; 0; 0.875; 20]%float (Ftc 10 90 14 85) 56%float) = true.
 Proof. vm_compute. reflexivity. Qed.
 
+(* ------------------------------------------------------------------ the rounding cross (was finding C12-F7), fixed by /repo 742a3de4 *)
+
+(* With pct_hdd_k + pct_cdd_k >= 1 the shifted balance points meet; before the guard in get_smooth_coeffs they could
+   cross by an ulp in binary64 and full_model swapped the two sides while SCORING (stored and scored differed by 96 on
+   this raw vector: hdd_bp 24.679393524689136, slope 0; cdd_bp 59.75, slope 4.875, fraction 1).  With the guard (in
+   the model text exactly as coded; C11_smooth_coeffs_never_cross_any_num in Properties/C11.v) the scored vector is never
+   swapped, and on the old witness the two curves agree again: *)
+Definition f7_raw : list float := [(0x1.8adecbbe9a76dp+4)%float; 0%float; 0%float; (0x1.de00000000000p+5)%float; (0x1.3800000000000p+2)%float; (0x1.0000000000000p+0)%float; (0x1.7400000000000p+4)%float].
+Definition f7_tc : tconstr FNum := Ftc (0x1.ea9e109831d40p+2)%float (0x1.1700000000000p+6)%float (0x1.5d4f084c18ea0p+3)%float (0x1.1127a6e905176p+6)%float.
+Example C12_old_rounding_witness_agrees_binary64 :
+  forallb (fun T => negb (differ_by_1 (scored_curve FNum KFullSmooth f7_raw f7_tc T)
+                                      (stored_curve FNum KFullSmooth f7_raw f7_tc T)))
+          [8; 20; 24.5; 25; 30; 45; 60; 69.75]%float = true.
+Proof. vm_compute. reflexivity. Qed.
+Example C12_old_rounding_witness_not_swapped :
+  match scored_x FNum KFullSmooth f7_raw with
+  | Some x => PrimFloat.ltb (x_cdd_bp x) (x_hdd_bp x) = false
+  | None => False
+  end.
+Proof. vm_compute. reflexivity. Qed.
+
 (* ------------------------------------------------------------------ non-vacuity *)
 
 Example ex_bounds : bounds_ok lo hi (tcR 10 90 14 85).
